@@ -89,6 +89,49 @@ mod kani_harnesses {
         assert!(u16::from_be_bytes([e[10], e[11]]) == d);
     }
 
+    /// Stub for the formatting machinery behind `anyhow!("..{}..", x)`: the text of an
+    /// error message is irrelevant to the harnesses below, and CBMC's treatment of the
+    /// `fmt::Arguments` function pointers is what makes them intractable otherwise.
+    #[allow(dead_code)]
+    fn fmt_format_stub(_args: core::fmt::Arguments<'_>) -> String {
+        String::new()
+    }
+
+    /// `anyhow` captures a backtrace when it builds an error (reads the environment, takes
+    /// locks): irrelevant here and intractable for CBMC.
+    #[allow(dead_code)]
+    fn backtrace_stub() -> std::backtrace::Backtrace {
+        std::backtrace::Backtrace::disabled()
+    }
+
+    /// C18/C10: a truncated u64 field of 0..=8 bytes decodes to its big-endian
+    /// value and consumes the field; a longer field is rejected.
+    #[kani::proof]
+    #[kani::stub(alloc::fmt::format, fmt_format_stub)]
+    #[kani::stub(std::backtrace::Backtrace::capture, backtrace_stub)]
+    #[kani::unwind(10)]
+    fn tu64_decodes_exactly() {
+        use crate::tlv::ProtoBuf;
+        let data: [u8; 9] = kani::any();
+        let len: usize = kani::any();
+        kani::assume(len <= 9);
+        let mut s: &[u8] = &data[..len];
+        let r = s.get_tu64();
+        if len > 8 {
+            assert!(r.is_err());
+        } else {
+            let mut want: u64 = 0;
+            let mut i = 0;
+            while i < len {
+                want = (want << 8) | data[i] as u64;
+                i += 1;
+            }
+            assert!(matches!(r, Ok(v) if v == want));
+            assert!(s.is_empty());
+        }
+        core::mem::forget(r);
+    }
+
     /// C12: the two constant failures.
     #[kani::proof]
     fn encode_constants_exact() {
